@@ -41,8 +41,26 @@ def odd_senders(rng, version, hist):
     return hist
 
 
+def sleeping_requester(rng, version, hist):
+    """a node that is asleep asks for an id (the response waits for its wake-up); a periodic save while it waits,
+    the wake-up, a clean stop and restart, another wake-up: the response goes out once"""
+    if version in ("1.4", "1.5") or rng.random() > 0.3 or not any(op[0] in ("K", "X", "R") for op in hist):
+        return hist                  # (save ticks and restarts only occur in histories of persisting gateways)
+    node = rng.choice([1, 2, 7, 42])
+    wake = f"{node};255;3;0;{32 if version == '2.2' else 22};{rng.choice([0, 7, 500])}\n"
+    script = [("L", f"{node};255;0;0;17;{version}\n"), ("L", f"{node};1;0;0;6;t\n"), ("L", wake),
+              ("L", f"{node};255;3;0;3;\n"), ("K",), ("L", wake)]
+    if rng.random() < 0.5:
+        script.append(("K",))
+    script += [("X",), ("R",), ("L", wake), ("L", "255;255;3;0;3;\n")]
+    k = rng.randrange(len(hist) + 1)
+    while k < len(hist) and hist[k][0] == "R":      # not between a stop and its restart
+        k += 1
+    return hist[:k] + script + hist[k:]
+
+
 CFG = {"kinds": ["base", "base", "tcp", "mqtt", "base-nocb", "mqtt-nocb", "base-raisecb", "tcp-raisecb"], "quick": 260, "thorough": 6000, "persist": ["none", "json", "pickle"], "lengths": [10, 20, 35],
-       "bias": {"idreq": 8, "save": 2, "restart": 3, "pres_node": 2}, "malformed": 0.1, "post": [many_ids, odd_senders]}
+       "bias": {"idreq": 8, "save": 2, "restart": 3, "pres_node": 2}, "malformed": 0.1, "post": [many_ids, odd_senders, sleeping_requester]}
 
 
 def _stop_restart_idreq(version, hist):
